@@ -486,7 +486,7 @@ func (e *Engine) discharge(rep *FuncReport, cfg *RunCfg) {
 				if c.Cover {
 					sb.WriteString(fmt.Sprintf("(set-option :timeout 1500)\n(push 1)\n(check-sat)\n(pop 1)\n(set-option :timeout %d)\n", cfg.PerCheckMs))
 				} else {
-					sb.WriteString("(push 1)\n(assert (not " + c.Goal + "))\n(check-sat)\n(pop 1)\n")
+					sb.WriteString("; check: " + c.Name + "\n(push 1)\n(assert (not " + c.Goal + "))\n(check-sat)\n(pop 1)\n")
 				}
 			}
 			if !c.Cover && c.Kind != "callsonly" && (c.Kind != "post" || strings.HasPrefix(c.Func, "lemma.")) {
@@ -517,10 +517,36 @@ func (e *Engine) discharge(rep *FuncReport, cfg *RunCfg) {
 			full = fixSubstr(full)
 			debugDump(fmt.Sprintf("%s.path%d", rep.Key, ji), full)
 			hard := cfg.PerCheckMs/1000*len(j.checks) + 30
-			r := runSolver(ctx, "z3-new", full, cfg.PerCheckMs, hard)
+			// stage 1: the same script without quantified assumptions (dropping assumptions is sound); most
+			// obligations are ground consequences of the path and discharge at once. Stage 2 (the full script) runs
+			// only if something is left.
+			r := runSolver(ctx, "z3-new", stripQuantAssumptions(full), cfg.PerCheckMs, hard)
 			mu.Lock()
 			rep.SolverSecs["z3-new"] += r.Secs
 			mu.Unlock()
+			need := len(r.Answers) < len(j.checks)
+			for i, c := range j.checks {
+				if i < len(r.Answers) && !c.Cover && r.Answers[i] != "unsat" {
+					need = true
+				}
+			}
+			if need {
+				r2 := runSolver(ctx, "z3-new", full, cfg.PerCheckMs, hard)
+				mu.Lock()
+				rep.SolverSecs["z3-new"] += r2.Secs
+				mu.Unlock()
+				for i := range j.checks {
+					if i < len(r.Answers) && r.Answers[i] == "unsat" && !j.checks[i].Cover {
+						if i < len(r2.Answers) {
+							r2.Answers[i] = "unsat"
+						}
+					}
+				}
+				if len(r2.Answers) >= len(r.Answers) {
+					r2.Secs += r.Secs
+					r = r2
+				}
+			}
 			for i, c := range j.checks {
 				ans := "error"
 				if i < len(r.Answers) {
@@ -649,6 +675,24 @@ func (e *Engine) discharge(rep *FuncReport, cfg *RunCfg) {
 	}
 }
 
+// stripQuantAssumptions removes every quantified assumption (outside the push/pop blocks of the obligations).
+func stripQuantAssumptions(script string) string {
+	var sb strings.Builder
+	inCheck := false
+	for _, l := range strings.Split(script, "\n") {
+		if l == "(push 1)" {
+			inCheck = true
+		} else if l == "(pop 1)" {
+			inCheck = false
+		} else if !inCheck && strings.HasPrefix(l, "(assert ") && (strings.Contains(l, "(forall ") || strings.Contains(l, "(exists ")) {
+			continue
+		}
+		sb.WriteString(l)
+		sb.WriteByte('\n')
+	}
+	return sb.String()
+}
+
 // stripChecks removes the push/check/pop blocks of earlier obligations from a script prefix.
 func stripChecks(prefix string) string {
 	var sb strings.Builder
@@ -679,7 +723,61 @@ func rank(s string) int {
 	return 0
 }
 
+var badPatTokens = []string{"(ite ", "(not ", "(and ", "(or ", "(=> ", "(= ", "(<= ", "(< ", "(>= ", "(> ", "(distinct "}
+
+// sanitizePatterns drops explicit quantifier patterns that contain logical connectives (they arise when a merged
+// value, an ite term, ends up inside a pattern); the solver then selects its own triggers.
+func sanitizePatterns(s string) string {
+	if !strings.Contains(s, ":pattern") {
+		return s
+	}
+	lines := strings.Split(s, "\n")
+	for li, l := range lines {
+		for {
+			i := strings.Index(l, ":pattern (")
+			if i < 0 {
+				break
+			}
+			// find the end of the pattern list
+			d := 0
+			j := i + len(":pattern ")
+			end := -1
+			for k := j; k < len(l); k++ {
+				if l[k] == '(' {
+					d++
+				}
+				if l[k] == ')' {
+					d--
+					if d == 0 {
+						end = k
+						break
+					}
+				}
+			}
+			if end < 0 {
+				break
+			}
+			pat := l[j : end+1]
+			bad := false
+			for _, t := range badPatTokens {
+				if strings.Contains(pat, t) {
+					bad = true
+					break
+				}
+			}
+			if bad {
+				l = l[:i] + ":qid govc_nopat" + l[end+1:]
+			} else {
+				l = l[:i] + ":PATTERN_OK " + l[i+len(":pattern "):]
+			}
+		}
+		lines[li] = strings.ReplaceAll(l, ":PATTERN_OK ", ":pattern ")
+	}
+	return strings.Join(lines, "\n")
+}
+
 func fixSubstr(s string) string {
+	s = sanitizePatterns(s)
 	if i := strings.Index(s, "PREAMBLE"); i >= 0 {
 		s = s[:i] + preambleFor(s[i+8:]) + s[i+8:]
 	}
